@@ -201,7 +201,7 @@ Send(s, w) ==
 
 \* process_downstream_ack()
 Ack(s, dseq, dfrag) ==
-    IF s.olen = 0 \/ s.oseq # dseq \/ s.ofrag # dfrag THEN s
+    IF s.olen = 0 \/ s.oseq # dseq \/ s.ofrag # dfrag \/ s.osent = 0 THEN s      \* (osent = 0: nothing of it sent yet)
     ELSE LET s1 == [s EXCEPT !.ooff = @ + s.osent, !.osent = 0, !.ofrag = @ + 1, !.resent = 0]
          IN IF s1.ooff >= s1.olen
             THEN Refill([s1 EXCEPT !.olen = 0, !.ooff = 0, !.opkt = 0, !.ofrag = @ - 1]).s
